@@ -181,6 +181,16 @@ def wsgi_call(app, r_or_env, max_items=None, close_after=None, on_start=None):
             on_start()      # (a fault injected at this very moment, e.g. the file being served is removed)
         return lambda data: res.items.append(data)
 
+    # a call that blocks for a minute of real time (a relay thread spinning, a queue nobody fills) ends as a verdict, not as a hang
+    import signal
+    import threading
+    guard = threading.current_thread() is threading.main_thread()
+
+    def on_alarm(signum, frame):
+        raise Livelock("a WSGI call did not return within 60 s of real time")
+    if guard:
+        old_handler = signal.signal(signal.SIGALRM, on_alarm)
+        signal.setitimer(signal.ITIMER_REAL, 60)
     it = None
     try:
         it = app(env, start_response)
@@ -200,13 +210,22 @@ def wsgi_call(app, r_or_env, max_items=None, close_after=None, on_start=None):
     except BaseException as e:  # noqa
         res.exc = e
     finally:
-        if it is not None and hasattr(it, "close"):
-            try:
-                it.close()
-                res.closed = True
-            except BaseException as e:  # noqa
-                if res.exc is None:
-                    res.exc = e
+        try:
+            if guard:
+                signal.setitimer(signal.ITIMER_REAL, 15)
+            if it is not None and hasattr(it, "close"):
+                try:
+                    it.close()
+                    res.closed = True
+                except BaseException as e:  # noqa
+                    if res.exc is None:
+                        res.exc = e
+        finally:
+            if guard:
+                signal.setitimer(signal.ITIMER_REAL, 0)
+                signal.signal(signal.SIGALRM, old_handler)
+    if isinstance(res.exc, Livelock):
+        raise res.exc
     return res
 
 
